@@ -114,6 +114,8 @@ func TestGovcBounded(t *testing.T) {
 		`{}`, `{"a":1}`, `{"a":1,"bc":"x"}`, `{ "a" : 1 , "bc" : "x" }`, `{"d":[1,2],"e":{"k":"v"}}`, `{"f":true,"g":1.5}`,
 		`{"zz":{"y":[1,{"q":null}]},"a":2}`, `{"a":1,}`, `{"a" 1}`, `{"\u0061":5}`, `{"b\u0063":"x"}`, `{"\u0062c":"\u00e9\ud83d\ude00"}`, `{"bc":"x"}`, `{"A":7,"BC":"y"}`, `{"f":nulx}`, `{"zz":nu,l],"a":1}`,
 		`  {"a":1}  `, "\n[1]\n",
+		// strings with escapes in members the destination ignores (directly, in an object, in an array)
+		`{"zz":"a\"b","a":1}`, `{"zz":"a\\","a":1}`, `{"zz":{"k":"\"\\"},"a":1}`, `{"zz":["\\","x\""],"a":1}`,
 		// numbers in members the destination ignores, with whitespace before them
 		`{"zz": 12345,"a":1}`, `{"zz":   12345 ,"a":1}`, `{"zz":-1.5e3 ,"a":2}`, `{"zz":01,"a":1}`, `{"zz": 1.,"a":1}`, `[01]`, `[1.e2]`, `-.5`, `0.e1`,
 	}
